@@ -58,9 +58,9 @@ def parse_output(fmt, text):
 	return out, None
 
 
-def run_query(w, fmt, extra):
+def run_query(w, fmt, extra, cwd=None):
 	out = w.sc.path(suffix='.' + fmt)
-	code, so, se, exc = run_cli(['-d', w.dbdir, 'query', '-o', out, '-f', fmt] + extra)
+	code, so, se, exc = run_cli(['-d', w.dbdir, 'query', '-o', out, '-f', fmt] + extra, cwd=cwd)
 	if code != 0 or not out.exists():
 		raise RuntimeError(f'gambit query failed: exit {code} {se[-300:]} {exc!r}')
 	text = out.read_text()
@@ -130,7 +130,7 @@ def check(ctx, case):
 		p, ids = w.sigfile([w.genomes[gi] for gi in gs], ids=[f'sig {i}:{w.genomes[gi]["name"]}' for i, gi in enumerate(gs)])
 		extra += ['-s', p]
 		kind, srcs = 's', ids
-	rows, header = run_query(w, fmt, extra)
+	rows, header = run_query(w, fmt, extra, cwd=(w.decoy_cwd if case.get('decoy_cwd') else None))
 	case['_nt'] = len(gs) >= 2 and len(set(singles)) > 1
 	return [f'c08.rows {kind} {strs(srcs)} {strs(singles)} {strs(r[0] for r in rows)} {strs(r[1] for r in rows)}'], []
 
@@ -149,6 +149,15 @@ def run(ctx):
 		n = len(w.genomes)
 		for pos, lines in [([], None), (['a/b.fasta', 'c.fa.gz'], None), ([], ['x.fna', '', 'sub/y.fasta.gz', '']), (['p.fa'], ['ignored.fa']), ([], [])]:
 			sub({'kind': 'seqfiles', 'pos': pos, 'lines': lines, 'fmt': 'csv', 'g': []}, 'seqfiles')
+		alpha = 'afstnqgz._-AF1'
+		exts = ['.fasta', '.fna', '.ffn', '.faa', '.frn', '.fa', '.gz', '.fastq', 'fa', 'fasta', '_fa', '.f', '']
+		for j in range(ctx.q(300, 5000)):
+			mk = lambda: ''.join(rng.choice(alpha) for _ in range(rng.randint(1, 7))) + rng.choice(exts) + rng.choice(['', '', '.gz', 'gz'])
+			names = [rng.choice(['', 'd/', 'a.b/c/']) + mk() for _ in range(rng.randint(1, 3))]
+			if rng.random() < 0.5:
+				sub({'kind': 'seqfiles', 'pos': names, 'lines': None, 'fmt': 'csv', 'g': []}, 'seqfiles-random')
+			else:
+				sub({'kind': 'seqfiles', 'pos': [], 'lines': names + ([''] if rng.random() < 0.3 else []), 'fmt': 'csv', 'g': []}, 'seqfiles-random')
 		for j in range(ctx.q(45, 600)):
 			if not ctx.time_left(0.85):
 				break
@@ -157,7 +166,8 @@ def run(ctx):
 			fmt = rng.choice(['csv', 'csv', 'json', 'archive'])
 			chan = rng.choice(['pos', 'pos', 'list', 'sigs'])
 			sub({'kind': 'cli', 'g': g, 'fmt': fmt, 'chan': chan, 'alt': [rng.random() < 0.4 for _ in g], 'progress': rng.random() < 0.4,
-			     'cores': rng.choice([None, None, 1, 2, 4]) if chan != 'sigs' else rng.choice([None, 2]), 'blank': rng.random() < 0.3}, 'cli')
+			     'cores': rng.choice([None, None, 1, 2, 4]) if chan != 'sigs' else rng.choice([None, 2]), 'blank': rng.random() < 0.3,
+			     'decoy_cwd': rng.random() < 0.5}, 'cli')
 		for j in range(ctx.q(20, 300)):
 			if not ctx.time_left(0.95):
 				break
